@@ -103,6 +103,7 @@ pub fn c05_scale(rep: &mut Report, tier: &str, seed: u64) {
         rep.required.push((name.clone(), "editor_insert_rejected".into()));
         rep.required.push((name, "editor_insert_inside".into()));
     }
+    endurance(rep, tier, seed, "C05");
 }
 
 // ------------------------------------------------------------------ C10
@@ -224,6 +225,41 @@ pub fn c10_scale(rep: &mut Report, tier: &str, seed: u64) {
         cfg.prefilled = pre;
         run_raw(rep, cfg, &dcaps, seed);
     }
+    // more than 256 entries alive at once (a u8 entry counter), re-submission of entries that lie deeper than
+    // 256 positions / 256 bytes / 1024 bytes in the buffer
+    {
+        let (cb, hb) = (16usize, 2100usize);
+        let lines = ab_lines(8);
+        let mut all: Vec<Ev> = vec![];
+        let mut total = 0usize;
+        let mut live: Vec<&String> = vec![];
+        for l in &lines {
+            if total > hb + 60 {
+                break;
+            }
+            total += l.len() + 1;
+            live.push(l);
+            all.extend(submit(l));
+        }
+        let mut pre: Vec<(String, Vec<Ev>)> = vec![];
+        let n = live.len();
+        for (label, idx) in [("the newest", n - 1), ("the 2nd newest", n - 2), ("300 back", n.saturating_sub(300)), ("260 back", n.saturating_sub(260)), ("255 back", n.saturating_sub(255)), ("100 back", n - 100)] {
+            let mut p = all.clone();
+            p.extend(submit(live[idx]));
+            p.extend(rep_ev(k(Key::Up), 3));
+            pre.push((format!("{} short entries submitted into {} bytes, re-submit the one {} ({:?}), Up x3", n, hb, label, live[idx]), p));
+        }
+        let mut p = all.clone();
+        p.extend(rep_ev(k(Key::Up), n + 2));
+        p.extend(rep_ev(k(Key::Down), n + 2));
+        pre.push((format!("{} short entries submitted into {} bytes, Up to the oldest and Down past the newest", n, hb), p));
+        let mut cfg = base_cfg("C10", format!("history scale cb={} hb={} raw: more than 256 live entries (checked prefill over {} paths, then depth-bounded)", cb, hb, pre.len()), cb, hb, alphabet.clone(), mon.clone());
+        cfg.prefilled = pre;
+        let mut d1 = dcaps.clone();
+        d1.max_depth = 1;
+        run_raw(rep, cfg, &d1, seed);
+    }
+    endurance(rep, tier, seed, "C10");
 }
 
 // ------------------------------------------------------------------ C06 (+ C13 framing of Cli::write on long lines)
@@ -320,6 +356,9 @@ pub fn c06_scale(rep: &mut Report, tier: &str, seed: u64, prop: &'static str) {
         cfg.prefilled_sweep = sweeps;
         run_cmd4(rep, cfg, &d1, seed);
     }
+    if prop != "C13" {
+        endurance(rep, tier, seed, prop);
+    }
 }
 
 // ------------------------------------------------------------------ C01
@@ -381,4 +420,122 @@ pub fn c01_scale(rep: &mut Report, tier: &str, seed: u64) {
     let name = cfg.label.clone();
     run_raw(rep, cfg, &dcaps, seed);
     rep.required.push((name, "dispatch_with_args".into()));
+    // more than 256 tokens in one line
+    {
+        let cb = 700usize;
+        let mut pre: Vec<(String, Vec<Ev>)> = vec![];
+        for kk in [255usize, 256, 257, 300] {
+            let line: String = (0..kk).map(|i| if i % 7 == 3 { "é" } else { "a" }).collect::<Vec<_>>().join(" ");
+            let mut p = type_str(&line);
+            pre.push((format!("{} one-character tokens", kk), p.clone()));
+            p.extend(rep_ev(k(Key::Left), 2 * kk - 3));
+            pre.push((format!("{} one-character tokens, cursor after the first", kk), p));
+        }
+        let mut cfg = base_cfg("C01", format!("dispatch scale cb={} hb=0 raw: lines of 255..300 tokens (checked prefill, then depth-bounded)", cb), cb, 0, vec![ch('a'), ch(' '), ch('"'), k(Key::Bs), k(Key::Left), k(Key::Lf)], Mon { dispatch: true, invariants: true, ..Default::default() });
+        cfg.prefilled = pre;
+        let mut d2 = caps(tier);
+        d2.max_depth = 2;
+        run_raw(rep, cfg, &d2, seed);
+    }
+    endurance(rep, tier, seed, "C01");
+}
+
+// ------------------------------------------------------------------ endurance (many repetitions)
+
+fn cycle(pattern: &[Ev], times: usize) -> Vec<Ev> {
+    let mut v = Vec::with_capacity(pattern.len() * times);
+    for _ in 0..times {
+        v.extend_from_slice(pattern);
+    }
+    v
+}
+
+/// Long sessions: short cycles of keys repeated tens of thousands of times as checked prefill (every step under
+/// the monitors), so that a counter, generation number or postponed compaction that a change adds overflows or
+/// fires (u8 after 256, u16 after 65 536 repetitions). Costs about a microsecond per key.
+pub fn endurance(rep: &mut Report, tier: &str, seed: u64, prop: &'static str) {
+    let quick = tier == "quick";
+    let n = if quick { 22_000 } else { 70_000 };
+    let mut dcaps = caps(tier);
+    dcaps.max_depth = 1;
+    let lf = k(Key::Lf);
+    let (mon, alphabet, cb, hb, paths): (Mon, Vec<Ev>, usize, usize, Vec<(String, Vec<Ev>)>) = match prop {
+        "C10" => {
+            let mut round: Vec<Ev> = vec![];
+            for l in ["a", "b", "ab", "ba", "aa", "bb", "aab"] {
+                round.extend(type_str(l));
+                round.push(lf.clone());
+            }
+            (
+                Mon { history: true, invariants: true, ..Default::default() },
+                vec![ch('a'), ch('b'), k(Key::Bs), lf.clone(), k(Key::Up), k(Key::Down)],
+                8,
+                24,
+                vec![
+                    (format!("7 distinct lines submitted round-robin x{}", n / 7), cycle(&round, n / 7)),
+                    (format!("[a Enter b Enter Up Up Enter Up Down Down] x{}", n / 3), {
+                        let mut p = submit("ab");
+                        p.extend(cycle(&[ch('a'), lf.clone(), ch('b'), lf.clone(), k(Key::Up), k(Key::Up), lf.clone(), k(Key::Up), k(Key::Down), k(Key::Down)], n / 3));
+                        p
+                    }),
+                    (format!("[a Enter] x{} then [Up] x300 [Down] x300", n), {
+                        let mut p = cycle(&[ch('a'), lf.clone()], n);
+                        p.extend(submit("b"));
+                        p.extend(cycle(&[k(Key::Up)], 300));
+                        p.extend(cycle(&[k(Key::Down)], 300));
+                        p
+                    }),
+                ],
+            )
+        }
+        "C01" => (
+            Mon { dispatch: true, invariants: true, ..Default::default() },
+            vec![ch('a'), ch(' '), k(Key::Bs), k(Key::Left), lf.clone()],
+            8,
+            8,
+            vec![
+                (format!("[a blank b Enter] x{}", n), cycle(&[ch('a'), ch(' '), ch('b'), lf.clone()], n)),
+                (format!("[a Left b Backspace Enter Enter] x{}", n / 2), cycle(&[ch('a'), k(Key::Left), ch('b'), k(Key::Bs), lf.clone(), lf.clone()], n / 2)),
+                (format!("[a Up Enter Tab] x{}", n / 2), cycle(&[ch('a'), k(Key::Up), lf.clone(), k(Key::Tab)], n / 2)),
+            ],
+        ),
+        "C05" => (
+            Mon { editor: true, invariants: true, ..Default::default() },
+            vec![ch('a'), ch('é'), k(Key::Bs), k(Key::Left), k(Key::Right)],
+            6,
+            0,
+            vec![
+                (format!("[a Left é Right Backspace Backspace] x{}", n), cycle(&[ch('a'), k(Key::Left), ch('é'), k(Key::Right), k(Key::Bs), k(Key::Bs)], n)),
+                (format!("[a a a a a a a Left x7 Right x7 Backspace x7] x{}", n / 10), {
+                    let mut pat = rep_ev(ch('a'), 7);
+                    pat.extend(rep_ev(k(Key::Left), 7));
+                    pat.extend(rep_ev(k(Key::Right), 7));
+                    pat.extend(rep_ev(k(Key::Bs), 7));
+                    cycle(&pat, n / 10)
+                }),
+            ],
+        ),
+        _ => (
+            // C06 / C15: the screen and the flush discipline over a long session
+            if prop == "C15" { Mon { flush: true, invariants: true, ..Default::default() } } else { Mon { term: true, invariants: true, ..Default::default() } },
+            vec![ch('a'), k(Key::Bs), k(Key::Left), k(Key::Up), lf.clone(), wr("x"), Ev::SetPrompt("é> ")],
+            6,
+            8,
+            vec![(
+                format!("[a é Left write(x) Right Backspace Up Down Tab Enter set_prompt] x{}", n / 3),
+                cycle(
+                    &[ch('a'), ch('é'), k(Key::Left), wr("x"), k(Key::Right), k(Key::Bs), k(Key::Up), k(Key::Down), k(Key::Tab), lf.clone(), Ev::SetPrompt("é> "), Ev::SetPrompt("$ ")],
+                    n / 3,
+                ),
+            )],
+        ),
+    };
+    let total: usize = paths.iter().map(|(_, p)| p.len()).sum();
+    let mut cfg = base_cfg(prop, format!("endurance cb={} hb={}: {} long sessions of repeated cycles, {} keys in all, every step under the monitors", cb, hb, paths.len(), total), cb, hb, alphabet, mon);
+    cfg.prefilled = paths;
+    if prop == "C05" || prop == "C10" || prop == "C01" {
+        run_raw(rep, cfg, &dcaps, seed);
+    } else {
+        run_cmd4(rep, cfg, &dcaps, seed);
+    }
 }
